@@ -1,4 +1,5 @@
 //! C10 — implicit layer paths: from directories, build/launch only, never persisted.
+#![allow(deprecated)]
 
 use crate::core::{Check, Ctx, Fail, Scratch, hash_of, pick_idx};
 use crate::envmodel::*;
@@ -146,6 +147,13 @@ fn check(ctx: &Ctx, scratch: &Path, assign: [PK; 4], variant: usize, entries_in:
         std::fs::write(p, data).unwrap();
     }
     let implicit = implicit_for(&layer, assign);
+    // every third case is also read through the two layer APIs; that needs a content-metadata file (refreshed by them)
+    let api_reads = (variant + cycles) % 3 == 0;
+    if api_reads {
+        std::fs::create_dir_all(root.join("app")).unwrap();
+        std::fs::create_dir_all(root.join("buildpack")).unwrap();
+        std::fs::write(root.join("layers/my layer.toml"), "[types]\nbuild = true\nlaunch = true\ncache = true\n").unwrap();
+    }
     let before_env = env_snapshot(&layer);
     let before_all = fsutil::snapshot(&root);
     let r = (|| -> Check {
@@ -156,24 +164,41 @@ fn check(ctx: &Ctx, scratch: &Path, assign: [PK; 4], variant: usize, entries_in:
             own.insert(v.as_bytes().to_vec(), [layer.join(d).as_os_str().as_bytes(), b":/usr/local"].concat());
         }
         starts.push(own);
-        for q in [Sc::All, Sc::Build, Sc::Launch, Sc::Process("web".into()), Sc::Process("other".into())] {
-            for e0 in starts.clone() {
-                ctx.eval();
-                let got = from_env(&read.apply(q.to_libcnb(), &to_env(&e0)));
-                let want = ref_apply(entries, &implicit, &q, &e0);
-                if got != want {
-                    // classify
-                    let want_no_implicit = ref_apply(entries, &[], &q, &e0);
-                    let sig = if got == want_no_implicit {
-                        "C10:implicit-entry-missing"
-                    } else if matches!(q, Sc::All | Sc::Process(_)) {
-                        "C10:implicit-entry-in-wrong-scope"
-                    } else {
-                        "C10:apply-differs"
-                    };
-                    return Err(Fail::new(sig, format!("scope {q:?} env0 {}: got {} want {}", envmap_to_json(&e0), envmap_to_json(&got), envmap_to_json(&want))));
+        let compare = |read: &LayerEnv, via: &str| -> Check {
+            for q in [Sc::All, Sc::Build, Sc::Launch, Sc::Process("web".into()), Sc::Process("other".into())] {
+                for e0 in starts.clone() {
+                    ctx.eval();
+                    let got = from_env(&read.apply(q.to_libcnb(), &to_env(&e0)));
+                    let want = ref_apply(entries, &implicit, &q, &e0);
+                    if got != want {
+                        // classify
+                        let want_no_implicit = ref_apply(entries, &[], &q, &e0);
+                        let sig = if got == want_no_implicit {
+                            "C10:implicit-entry-missing"
+                        } else if matches!(q, Sc::All | Sc::Process(_)) {
+                            "C10:implicit-entry-in-wrong-scope"
+                        } else {
+                            "C10:apply-differs"
+                        };
+                        return Err(Fail::new(sig, format!("read through {via}: scope {q:?} env0 {}: got {} want {}", envmap_to_json(&e0), envmap_to_json(&got), envmap_to_json(&want))));
+                    }
                 }
             }
+            Ok(())
+        };
+        compare(&read, "LayerEnv::read_from_layer_dir")?;
+        if api_reads {
+            // the same layer read through the two layer APIs (a kept, restored layer): LayerRef::read_env and LayerData::env
+            let bc = crate::layermodel::make_context(&root);
+            let name: libcnb::data::layer::LayerName = "my layer".parse().unwrap();
+            let lr = bc
+                .cached_layer(&name, libcnb::layer::CachedLayerDefinition { build: true, launch: true, invalid_metadata_action: &|_| libcnb::layer::InvalidMetadataAction::DeleteLayer, restored_layer_action: &|_: &libcnb::generic::GenericMetadata, _| libcnb::layer::RestoredLayerAction::KeepLayer })
+                .map_err(|e| Fail::new("C10:cached-layer-failed", format!("{e:?}")))?;
+            ensure!(matches!(lr.state, libcnb::layer::LayerState::Restored { .. }), "harness:c10-layer-not-restored", "{:?}", lr.state);
+            let via_ref = lr.read_env().map_err(|e| Fail::new("C10:read-failed", format!("LayerRef::read_env: {e:?}")))?;
+            compare(&via_ref, "LayerRef::read_env")?;
+            let data = bc.handle_layer(name, KeepIt).map_err(|e| Fail::new("C10:handle-layer-failed", format!("{e:?}")))?;
+            compare(&data.env, "handle_layer(..).env")?;
         }
         // read -> write cycles: env directories are a fixpoint and nothing else changes
         let mut cur = read;
@@ -210,7 +235,7 @@ fn check(ctx: &Ctx, scratch: &Path, assign: [PK; 4], variant: usize, entries_in:
         let after_all = fsutil::snapshot(&root);
         let d: Vec<String> = fsutil::diff(&before_all, &after_all, 50)
             .into_iter()
-            .filter(|l| !(l.contains("/env\"") || l.contains("/env/") || l.contains("/env.build") || l.contains("/env.launch")))
+            .filter(|l| !(l.contains("/env\"") || l.contains("/env/") || l.contains("/env.build") || l.contains("/env.launch") || l.contains("my layer.toml")))
             .collect();
         ensure!(d.is_empty(), "C10:rewrite-touches-other-content", "{d:?}");
         Ok(())
@@ -219,13 +244,28 @@ fn check(ctx: &Ctx, scratch: &Path, assign: [PK; 4], variant: usize, entries_in:
     r
 }
 
+struct KeepIt;
+impl libcnb::layer::Layer for KeepIt {
+    type Buildpack = crate::layermodel::HB;
+    type Metadata = libcnb::generic::GenericMetadata;
+    fn types(&self) -> libcnb::data::layer_content_metadata::LayerTypes {
+        libcnb::data::layer_content_metadata::LayerTypes { build: true, launch: true, cache: true }
+    }
+    fn create(&mut self, _c: &libcnb::build::BuildContext<crate::layermodel::HB>, _p: &Path) -> Result<libcnb::layer::LayerResult<Self::Metadata>, <crate::layermodel::HB as libcnb::Buildpack>::Error> {
+        libcnb::layer::LayerResultBuilder::new(None).build()
+    }
+    fn existing_layer_strategy(&mut self, _c: &libcnb::build::BuildContext<crate::layermodel::HB>, _d: &libcnb::layer::LayerData<Self::Metadata>) -> Result<libcnb::layer::ExistingLayerStrategy, <crate::layermodel::HB as libcnb::Buildpack>::Error> {
+        Ok(libcnb::layer::ExistingLayerStrategy::Keep)
+    }
+}
+
 fn nontrivial(assign: [PK; 4], entries: &[EnvEntry]) -> bool {
     let var_of = [vec!["PATH"], vec!["LD_LIBRARY_PATH", "LIBRARY_PATH"], vec!["CPATH"], vec!["PKG_CONFIG_PATH"]];
     (0..4).any(|i| is_dir_kind(assign[i]) && entries.iter().any(|e| var_of[i].iter().any(|v| v.as_bytes() == &e.name[..])))
 }
 
 pub fn run(ctx: &Ctx) {
-    ctx.set_rule("EXHAUSTIVE: all 6^4 = 1296 assignments of {absent, directory, file, symlink->dir (relative inside / absolute outside), symlink->file, dangling symlink} to bin, lib, include, pkgconfig; each combined with K generated sets (K=6 quick, 60 thorough) of 0..6 explicit entries on PATH, LD_LIBRARY_PATH, LIBRARY_PATH, CPATH, PKG_CONFIG_PATH (all behaviours incl. own delimiter, scopes all/build/launch/process) laid out on disk by the harness; applied for scopes all, build, launch, process web, process other to three starting envs (all defined / none / empty strings); (values also the layer's own <layer>/bin etc.), also to a starting env whose path lists begin with the layer's own directories; then 1..4 read->write cycles and, in every other case, read -> insert further entries -> write. Oracle: reference apply with implicit prepend (':' only when the previous value is non-empty) for build (5 variables) and launch (2 variables) iff the path is a directory following links; env-directory file set after every cycle equals the initial one; nothing else changes. Non-trivial: some special path is a directory or symlink->dir AND an explicit entry exists on its variable; distinct = hash of (assignment, entries).");
+    ctx.set_rule("EXHAUSTIVE: all 6^4 = 1296 assignments of {absent, directory, file, symlink->dir (relative inside / absolute outside), symlink->file, dangling symlink} to bin, lib, include, pkgconfig; each combined with K generated sets (K=6 quick, 60 thorough) of 0..6 explicit entries on PATH, LD_LIBRARY_PATH, LIBRARY_PATH, CPATH, PKG_CONFIG_PATH (all behaviours incl. own delimiter, scopes all/build/launch/process) laid out on disk by the harness and read through LayerEnv::read_from_layer_dir and, in every third case, also through LayerRef::read_env (struct API, kept restored layer) and handle_layer(..).env (trait API, keep); applied for scopes all, build, launch, process web, process other to three starting envs (all defined / none / empty strings); (values also the layer's own <layer>/bin etc.), also to a starting env whose path lists begin with the layer's own directories; then 1..4 read->write cycles and, in every other case, read -> insert further entries -> write. Oracle: reference apply with implicit prepend (':' only when the previous value is non-empty) for build (5 variables) and launch (2 variables) iff the path is a directory following links; env-directory file set after every cycle equals the initial one; nothing else changes. Non-trivial: some special path is a directory or symlink->dir AND an explicit entry exists on its variable; distinct = hash of (assignment, entries).");
     ctx.set_exhaustive(true);
     ctx.extra("exhaustive_subspace", json!("the 1296 path-kind assignments; explicit entry sets are sampled"));
     let scratch = Scratch::new("c10");
